@@ -358,6 +358,28 @@ example (R : Rng ℝ) (hR : drawsOk R) (c : OmplModel.St ℝ) (hc : satisfiesBou
     satisfiesBounds exSpace (sampleGauss R none exSpace c 1000000 {}).1 = true :=
   sampler_inbounds_gaussian R hR _ _ _ _ _ exSpace_ok hc
 
+/-- [EX] The modelled samplers take the space — hence its bounds — as an ARGUMENT of every draw; the only thing a
+sampler carries from one draw to the next is its position `Pos` in the RNG streams.  So whatever bound setting `b1` the
+sampler was used with before (legal or not, any structure), a draw made under the current setting `b2` from the position
+the earlier draw left behind satisfies `b2`: uniform, near (every radius, centre in the current bounds) and Gaussian.
+(`sampler_inbounds_*` already quantify over the bounds at draw time; this makes the "sampler follows the current bounds"
+reading explicit.  A C++ sampler object that snapshots the bounds in its constructor does not refine this model; the
+`rebound` runs of the check look for exactly that.) -/
+theorem sampler_follows_current_bounds (R : Rng ℝ) (hR : drawsOk R) (b1 b2 : Space ℝ) (p : Pos) (h2 : boundsOk b2) :
+    satisfiesBounds b2 (sampleUniform R b2 (sampleUniform R b1 p).2).1 = true ∧
+    (∀ (c1 c : OmplModel.St ℝ) (d1 d : ℝ), 0 ≤ d → satisfiesBounds b2 c = true →
+      satisfiesBounds b2 (sampleNear R none b2 c d (sampleNear R none b1 c1 d1 p).2).1 = true) ∧
+    (∀ (c1 c : OmplModel.St ℝ) (sd1 sd : ℝ), satisfiesBounds b2 c = true →
+      satisfiesBounds b2 (sampleGauss R none b2 c sd (sampleGauss R none b1 c1 sd1 p).2).1 = true) :=
+  ⟨sampler_inbounds_uniform R hR b2 _ h2,
+   fun _ c _ d hd hc => sampler_inbounds_near R hR b2 none c d _ h2 hd hc,
+   fun _ c _ sd hc => sampler_inbounds_gaussian R hR b2 none c sd _ h2 hc⟩
+
+-- non-vacuity: first the box [0,1], then the disjoint box [5,6] with the same sampler position
+example (R : Rng ℝ) (hR : drawsOk R) :
+    satisfiesBounds (.rv [5] [6]) (sampleUniform R (.rv [5] [6]) (sampleUniform R (.rv [0] [1]) {}).2).1 = true :=
+  (sampler_follows_current_bounds R hR (.rv [0] [1]) (.rv [5] [6]) {} ⟨by norm_num, trivial⟩).1
+
 /-- [EX] `quaternionProduct` of unit quaternions is unit (norm is multiplicative). -/
 theorem quaternionProduct_unit (a b : OmplModel.St ℝ)
     (ha : nrmSq (St.qx a) (St.qy a) (St.qz a) (St.qw a) = 1) (hb : nrmSq (St.qx b) (St.qy b) (St.qz b) (St.qw b) = 1) :
